@@ -259,6 +259,15 @@ def qualificationNeeded (all : List (Name × List Name)) (trace : List Name) (ow
      | none => false) &&
     (j == 0 || j > minLen || !decide ((group.map (traceBuffer j)).Nodup))
 
+/-- some way of reading `name` as "last `j+1` trace items + digits" has no digits, or its unsuffixed part is a
+reserved name or the name of another struct of the output: the suffix disambiguates something -/
+def suffixNeeded (others : List Name) (trace : List Name) (name : Name) : Bool :=
+  (List.range trace.length).any fun j =>
+    let base := (trace.drop (trace.length - (j + 1))).flatten
+    match stripPrefix? base name with
+    | some rest => allDigits rest && (rest.isEmpty || reservedStructNames.contains base || others.contains base)
+    | none => false
+
 def checkC14 (c : HCase) (obs : List StepObs) : Verdict :=
   match finalImplTree obs, c.renders.find? (fun r => r.1.sort == .unsorted) with
   | some t, some (_, txt) =>
@@ -279,6 +288,8 @@ def checkC14 (c : HCase) (obs : List StepObs) : Verdict :=
             .prop s!"struct {showName s.name}: the name {showName own} occurs once in the tree but is qualified"
           else if !qualificationNeeded all en.trace own s.name then
             .prop s!"struct {showName s.name} is qualified by more ancestors than are needed to separate the positions of {showName own}"
+          else if !suffixNeeded (((prog.zipIdx).filter fun (_, k) => k != i).map fun (s', _) => s'.name) en.trace s.name then
+            .prop s!"struct {showName s.name} carries a numeric suffix although its unsuffixed name is neither reserved nor the name of another struct"
           else .ok),
         fun _ => renderCorr (some t) c.renders ]
   | _, _ => .gen "no-tree-or-render"
